@@ -266,6 +266,28 @@ def run(chk):
     chk.stats["retry_wrapped_operations"] = wrapped
     if len(wrapped) < 10:
         chk.adv("O16.5", f"only {len(wrapped)} operations are wrapped in Retry by register_default_runners", reg)
+    # which operations are wrapped: every operation the documentation marks as retryable is registered through Retry(...)
+    import re as _re
+
+    chk.rule("O16.5", "every operation type whose documentation section says `This operation is retryable` is registered as Retry(<runner>) in register_default_runners", 30,
+             "the documented retry properties (retries, retry-until-success, ...) are silently ignored for that operation")
+    chk.use("docs/track.rst")
+    doc = repo.text("docs/track.rst").splitlines()
+    secs = [(i, doc[i].strip()) for i in range(len(doc) - 1) if doc[i].strip() and _re.fullmatch(r"~{3,}", doc[i + 1].strip())]
+    marks = [i for i, l in enumerate(doc) if "This operation is :ref:`retryable" in l]
+    documented = sorted({[t for i, t in secs if i < r][-1] for r in marks if any(i < r for i, _ in secs)})
+    regs = {}
+    for c in source.calls_in(reg, attr="register_runner"):
+        if len(c.args) >= 2:
+            member = u(c.args[0]).split(".")[-1]
+            regs[_re.sub(r"(?<!^)(?=[A-Z])", "-", member).lower()] = c
+    for op in documented:
+        c = regs.get(op)
+        if c is None:
+            chk.adv("O16.5", f"documented retryable operation `{op}` has no default registration under that name", reg)
+            continue
+        ok = isinstance(c.args[1], ast.Call) and last_attr(c.args[1].func) == "Retry"
+        chk.ob("O16.5", f"`{op}` (documented as retryable) is registered through Retry", ok, c, short(c, 90), key=f"{_R}:register_default_runners:retry:{op}")
 
 
 from sa.selftest import V  # noqa: E402
